@@ -85,11 +85,16 @@ def check(ctx):
     sps = wspec.get("str")
     if sps is not None and "str" in wtag:
         seen_text = False
-        for n in g.nodes:
-            if n.kind == "assign" and n in sps.normal and isinstance(n.ast, ast.Assign) and any(
-                    isinstance(t, ast.Attribute) and t.attr == "text" for t in n.ast.targets):
+        from .xmlfmt import text_writes
+        for n, tv in text_writes(sps, te):
+            if True:
                 seen_text = True
-                srcs = sps.sources(n.ast.value, n)
+                srcs = []
+                for k, p_ in sps.sources(tv, n):
+                    if k == "expr" and isinstance(p_, ast.Call) and isinstance(p_.func, ast.Name) and p_.func.id == "str" and len(p_.args) == 1 and not p_.keywords:
+                        srcs += sps.sources(p_.args[0], sps.where.get(id(p_)) or n)      # str() of a str is the string itself
+                    else:
+                        srcs.append((k, p_))
                 okw = bool(srcs) and all(k == "param" for k, _ in srcs)
                 ctx.ob("xml.str-payload-verbatim", te, n.ast, okw, "a string is written as the element text unchanged" if okw else
                        "the writer transforms string values before writing them", node=n)
@@ -211,7 +216,22 @@ def check(ctx):
         # what is handed to the library on dumps is the tree parameter (possibly wrapped); on loads the content
         if dc:
             a0 = dc[0].args[0] if dc[0].args else None
-            okt = a0 is not None and isinstance(a0, ast.Name) and any(k == "param" and p == d.positional_params[2] for k, p in value_sources(d, a0, None))
+
+            def holds_tree(e, depth=0):
+                """the tree parameter, or the tree wrapped under one key, on every alternative"""
+                if e is None or depth > 4:
+                    return False
+                if isinstance(e, ast.IfExp):
+                    return holds_tree(e.body, depth + 1) and holds_tree(e.orelse, depth + 1)
+                if isinstance(e, ast.Dict) and len(e.values) == 1 and e.keys[0] is not None:
+                    return holds_tree(e.values[0], depth + 1)
+                if isinstance(e, ast.Name):
+                    srcs = value_sources(d, e, None)
+                    return bool(srcs) and all((k == "param" and p == d.positional_params[2]) or
+                                              (k == "expr" and isinstance(p, (ast.Dict, ast.IfExp)) and holds_tree(p, depth + 1)) for k, p in srcs) \
+                        and any(k == "param" or holds_tree(p, depth + 1) for k, p in srcs)
+                return False
+            okt = holds_tree(a0)
             ctx.ob("wrapper.dumps-the-tree", d, dc[0], okt, "serialises the tree it was given" if okt else "does not serialise the tree parameter")
         # options must not influence loads (except the YAML root key handled above)
         opts = {x.attr for x in ast.walk(l.node) if isinstance(x, ast.Attribute) and isinstance(x.value, ast.Name) and x.value.id == l.self_name}
@@ -229,5 +249,29 @@ def check(ctx):
     pretty_uses = [x for x in ast.walk(jd.node) if isinstance(x, ast.Attribute) and x.attr == "pretty"]
     ok = all(isinstance(getattr(getattr(x, "_parent", None), "_parent", None), ast.keyword) and x._parent._parent.arg == "indent" or
              isinstance(getattr(x, "_parent", None), ast.keyword) and x._parent.arg == "indent" for x in pretty_uses)
+    if not ok and pretty_uses:
+        # the same by specialisation: the keywords json.dumps receives with and without the option differ in `indent` only
+        from engine.specialize import Spec
+        kwsets = []
+        for truth in (True, False):
+            spj = Spec(an, jd, lambda e, node, truth=truth: truth if isinstance(e, ast.Attribute) and e.attr == "pretty" else None)
+            kws = {}
+            calls_ = [n for n in an.cfg(jd).nodes if n.kind == "call" and n in spj.normal and isinstance(n.ast.func, ast.Attribute)
+                      and ast.unparse(n.ast.func) == "json.dumps"]
+            for n in calls_:
+                for k in n.ast.keywords:
+                    if k.arg is not None:
+                        kws[k.arg] = ast.unparse(k.value)
+                    else:
+                        for kk, pl in spj.sources(k.value, n):
+                            if kk == "expr" and isinstance(pl, ast.Dict) and all(isinstance(x, ast.Constant) for x in pl.keys):
+                                for x, y in zip(pl.keys, pl.values):
+                                    kws[x.value] = ast.unparse(y)
+                            else:
+                                kws["**?"] = "?"
+            kwsets.append(kws if len(calls_) == 1 else {"**?": "?"})
+        rest = [{k: v for k, v in kw.items() if k != "indent"} for kw in kwsets]
+        ok = rest[0] == rest[1] and "**?" not in rest[0] and not any("pretty" in v for v in rest[0].values()) and "indent" in kwsets[0] \
+            and kwsets[1].get("indent", "None") == "None"
     ctx.ob("wrapper.json-pretty-only-indent", jd, "self.pretty", ok and bool(pretty_uses), "the pretty option only selects the indent" if ok else
            "the pretty option influences more than indentation")
